@@ -15,6 +15,7 @@ R19.1 every path of TreeBuilder::step that returns EncodingIndicator is in mode 
 'meta', after insert_and_pop_element_for, with the charset test before the http-equiv test; R19.2 step_foreign and
 every other tree-builder function never construct it; R19.3 process_to_completion / emit_current_tag / run hand it
 to the caller without processing further tokens; R19.4 reviewed normal forms (encoding.rs, driver.rs, rules).
+R19.5 complete byte tables of the scanner's predicates (ASCII whitespace; whitespace or ';').
 """
 ASSUMPTIONS = ["Tag::get_attribute returns the value of the named attribute (markup5ever interface, NF-reviewed)"]
 TB = "html_tree_builder"
